@@ -270,6 +270,28 @@ let cmd_flagswrite t =
   let f = read_flags t in
   res_str (fun bl -> "ok " ^ hex_of_bytes (M.bits_to_bytes bl)) (M.write_flags f)
 
+let ts_dtype = function
+  | "tsmicros" -> M.DTsMicros | "tsnanos" -> M.DTsNanos
+  | "tsmicros96" -> M.DTsMicros96 | "tsnanos96" -> M.DTsNanos96
+  | s -> failwith ("bad ts type " ^ s)
+
+let cmd_st2ts t =
+  let d = ts_dtype (next t) in
+  let sec = z_of_string (next t) in
+  let nanos = z_of_string (next t) in
+  if not (M.st_ok sec nanos) then "unrepresentable" else
+  res_str (fun p -> "ok " ^ string_of_z p) (M.st2ts d sec nanos)
+
+let cmd_ts2st t =
+  let d = ts_dtype (next t) in
+  let parts = z_of_string (next t) in
+  res_str (fun (s, n) -> Printf.sprintf "ok %s %s" (string_of_z s) (string_of_z n)) (M.ts2st d parts)
+
+let cmd_ts96new t =
+  let d = ts_dtype (next t) in
+  let parts = z_of_string (next t) in
+  res_str (fun p -> "ok " ^ string_of_z p) (M.ts96_new d parts)
+
 let run_line line =
   let t = toks_of line in
   let cmd = next t in
@@ -281,6 +303,9 @@ let run_line line =
   | "varint" -> cmd_varint t
   | "flagsparse" -> cmd_flagsparse t
   | "flagswrite" -> cmd_flagswrite t
+  | "st2ts" -> cmd_st2ts t
+  | "ts2st" -> cmd_ts2st t
+  | "ts96new" -> cmd_ts96new t
   | _ ->
     let d = dtype_of_string (next t) in
     (match cmd with
